@@ -27,6 +27,22 @@ func (u *upgrade) Reset() {
 	*u = upgrade{}
 }
 
+// valid reports whether the flags are one of the combinations used by the protocol:
+// a plain call, a heartbeat, or the open, message and close frames of a stream.
+func (u *upgrade) valid() bool {
+	switch {
+	case u.IsZero():
+		return true
+	case u.Heartbeat == heartbeat:
+		return u.NoRequest == noRequest && u.NoResponse == noResponse && u.Stream == 0
+	case u.Stream == openStream, u.Stream == closeStream:
+		return u.NoRequest == noRequest && u.NoResponse == noResponse
+	case u.Stream == streaming:
+		return u.NoResponse == noResponse
+	}
+	return false
+}
+
 func (u *upgrade) IsZero() bool {
 	return u.NoRequest+u.NoResponse+u.Heartbeat+u.Stream == 0
 }
